@@ -808,11 +808,22 @@ def _process_step_result_tick(
                 else None
             )
             if retries is not None:
-                _next_params = inspect.signature(retries.next).parameters
-                _seed_kwarg = {"seed": jitter_seed} if "seed" in _next_params else {}
-                delay = retries.next(
-                    elapsed_time, failures, result.exception, **_seed_kwarg
-                )
+                try:
+                    _next_params = inspect.signature(retries.next).parameters
+                    _seed_kwarg = (
+                        {"seed": jitter_seed} if "seed" in _next_params else {}
+                    )
+                    delay = retries.next(
+                        elapsed_time, failures, result.exception, **_seed_kwarg
+                    )
+                except Exception:
+                    # A retry policy that raises must not take the control loop down
+                    # without a terminal event: stop retrying and let the step's own
+                    # failure end the run (or reach its @catch_error handler).
+                    logger.exception(
+                        "Retry policy of step %s raised; not retrying", tick.step_name
+                    )
+                    delay = None
             else:
                 delay = None
             if delay is not None:
